@@ -130,3 +130,10 @@ Definition spec_both (R : list str) (a b : tree) : option (Q * Q) :=
    those), at least four taxa *)
 Definition wf_tree (t : tree) : Prop :=
   proper t = true /\ clean_tree t = true /\ names_ok (leaves t) = true /\ 4 <= length (leaves t).
+
+(* the same tree without any branch length *)
+Fixpoint strip_len (t : tree) : tree :=
+  match t with
+  | Leaf n _ => Leaf n None
+  | Node cs _ => Node (map strip_len cs) None
+  end.
